@@ -201,6 +201,7 @@ func open(pos perptypes.Position, collDenom string) {
 	m, gerr := env.Perp.GetMTP(ctx, trader, res.Id)
 	vrf.Assert(gerr == nil, "C09 open: the new position is stored")
 	vrf.Observe("custody", m.Custody)
+	vrf.Assert(m.MtpHealth.GT(perptypes.DefaultParams().SafetyFactor), "C10 open: a successful open leaves health strictly above the safety factor")
 	vrf.Assert(env.W.BalOf(trader, collDenom).Equal(s.wallet[collDenom].Sub(coll)), "C09 open: the trader pays exactly the collateral")
 	s.check("open")
 }
